@@ -27,6 +27,11 @@ func fillCode(r *rand.Rand, g *ast.Grammar, cfg Cfg) {
 			usesState = true
 		}
 	}
+	if usesState && cfg.OnlyUnder[kState] != 0 {
+		// placement-restricted state blocks: nothing is planted and only the state blocks themselves touch
+		// c.state (the store must exist wherever a state block is)
+		usesState = false
+	}
 	if usesState {
 		// the state store only exists (under -optimize-parser) when a state
 		// block survives in the grammar: plant one at the very start of the
